@@ -17,6 +17,7 @@ One JSON result per line:
               "ser": text|null, "orig_untouched": bool, "clock_reads": n}, ...]}
 Instants are microseconds since 0001-01-01T00:00:00.
 """
+import collections
 import copy
 import datetime as dt
 import json
@@ -87,7 +88,7 @@ def enc(v):
 
 def state_of(x):
     """[[key, val], ...] of a mapping in its own order (an object's _inner)."""
-    inner = x._inner if isinstance(x, stix2.base._STIXBase) else x
+    inner = x._inner if isinstance(x, stix2.base._STIXBase) else x.data if isinstance(x, collections.UserDict) else x
     return [[k, enc(inner[k])] for k in inner]
 
 
@@ -171,6 +172,8 @@ def build(case):
         return "not-a-mapping"
     if carrier == "dict":
         return d
+    if carrier == "mapping":
+        return collections.UserDict(d)        # a Mapping that is not a dict
     return stix2.parse(d, allow_custom=bool(case.get("allow_custom")), version=case["ver"])
 
 
@@ -182,7 +185,7 @@ def serialized_modified(carrier, ver, x):
             return None
         if carrier == "object":
             return json.loads(x.serialize()).get("modified")
-        o = stix2.parse(copy.deepcopy(x), allow_custom=True, version=ver)
+        o = stix2.parse(copy.deepcopy(dict(x)), allow_custom=True, version=ver)
         if isinstance(o, stix2.base._STIXBase):
             return json.loads(o.serialize()).get("modified")
     except Exception:  # noqa: BLE001
